@@ -3,6 +3,7 @@ import BeffVerif.Props.C02Sound
 import BeffVerif.Props.C02Complete
 import BeffVerif.Props.C16Refs
 import BeffVerif.Props.Consts
+import BeffVerif.Props.C02NonJson
 open BeffVerif.C02
 #print axioms valid_type_only
 #print axioms typeof_exact
@@ -39,3 +40,5 @@ open BeffVerif.C02
 #print axioms BeffVerif.C16R.returned_refs_resolve
 #print axioms BeffVerif.Consts.mergeable_keys_current
 #print axioms BeffVerif.C16R.schema_flat_no_refs
+#print axioms BeffVerif.C02N.flat_ok_njFree
+#print axioms BeffVerif.C02N.flat_throws_on_nonjson
